@@ -486,7 +486,7 @@ func runGenerated(c *engine.Ctx) {
 					c.Add("pruned_subtrees", 1)
 					// one more token behind a dead prefix all the same (not recursively): a second
 					// offending element must not change which element the error names
-					if len(p) == 2 && !c.Quick() {
+					if len(p) == 2 && !c.Quick() && len(c18.Nodes(g)) <= 3 { // (for the 4-node schemas this does not fit the budget)
 						for _, t := range toks {
 							q := append(append([]string{}, p...), t)
 							for _, inc := range []bool{true, false} {
